@@ -15,6 +15,11 @@ git apply "$SRC/patch.diff" || { echo "RESULT $ID patch-does-not-apply"; exit 1;
 echo "== full suite with the change"
 cargo nextest run --workspace --no-fail-fast --tool-config-file pb:/w/lib/nextest.toml --profile pb --test-threads 8 --offline 2>&1 | tail -8
 SUITE=${PIPESTATUS[0]}
+if [ "$SUITE" != 0 ]; then
+  echo "== suite failed once; second run (the pinned suite has wall-clock latency tests that flake under load)"
+  cargo nextest run --workspace --no-fail-fast --tool-config-file pb:/w/lib/nextest.toml --profile pb --test-threads 8 --offline 2>&1 | tail -8
+  SUITE=${PIPESTATUS[0]}
+fi
 DEMO=vx_demo_$(echo $ID | tr -c 'A-Za-z0-9' '_')
 cp "$SRC/demo.rs" engine/tests/$DEMO.rs
 echo "== demo with the change"
